@@ -13,6 +13,7 @@ Pipeline (per chunk of cases = POMDP instance x representation x configurations)
 Only clauses of the statement raise VIOLATION; a mismatch with the reference machine alone is DRIFT.
 """
 import copy
+import gc
 import math
 import random
 import traceback
@@ -471,6 +472,11 @@ def make_case(rng, k, tier):
     # planner-reuse history: the SAME planner object first plans a variant of the POMDP that differs only in
     # the named component, then the POMDP of the case; the second result is judged like a fresh planner's
     case["reuse"] = REUSE[k % len(REUSE)]
+    # input representation of the absorbing flags: Python bools, plain ints 0/1, numpy integers
+    case["absflag"] = ["bool", "int", "npint"][k % 3]
+    # short-lived model objects: the first planner configuration runs on a model object created right after
+    # another model of the same shape (other dynamics, same initial belief) was planned, dropped and collected
+    case["shortlived"] = k % 2 == 1
     return case
 
 
@@ -585,6 +591,8 @@ class Real:
         p = B.pomdp
         if m.get("rare"):
             p = B.pomdp = self.with_rare_transitions(B, m["rare"])
+        if case.get("absflag", "bool") != "bool":
+            p = B.pomdp = self.with_absorbing_flags(p, case["absflag"])
         self.p = p
         listed = pb.listed_states(m, rep["explicit_list"])
         self.mp, self.ls = prune(m, listed)
@@ -606,6 +614,45 @@ class Real:
         self.aord = [a + 1 for a in self.apos]
         self.ok = True
         return True
+
+    def probe_state_dependent_actions(self):
+        """Outside the statement (a POMDP's agent cannot know which actions its hidden state offers; PBVI treats an
+        action that is not offered as 'reward 0, episode over', QMDP gives it -inf): only the implementation-shaped
+        fact that the observation tensor PBVI plans with lists observation_dist(a, ns) for EVERY action of the
+        action list is probed on a copy of the model with state-dependent action sets.  A mismatch is DRIFT."""
+        self.probe_drift = None
+        if self.case.get("k", 0) % 8 != 3 or len(self.al) < 2:
+            return
+        rnd = random.Random(digest([self.case["m"], "sdact"]))
+        offered = {}
+        for i, lab in enumerate(self.sl):
+            keep = [a for a in self.al if rnd.random() < 0.5] or [rnd.choice(self.al)]
+            offered[i] = tuple(keep)
+        base = type(self.p)
+        sl = self.sl
+
+        class _SD(base):
+            def actions(self, s):
+                for i, lab in enumerate(sl):
+                    if type(lab) is type(s) and lab == s:
+                        return offered[i]
+                return ()
+        try:
+            q = _SD()
+            q._state_list, q._action_list = tuple(self.sl), tuple(self.al)
+            om = np.asarray(q.observation_matrix)
+            ol = list(q.observation_list)
+            for ai, a in enumerate(self.al):
+                for ni, ns in enumerate(self.sl):
+                    d = q.observation_dist(a, ns)
+                    exp = [float(d.prob(o)) for o in ol]
+                    if max(abs(om[ai, ni, oi] - exp[oi]) for oi in range(len(ol))) > 1e-12:
+                        self.probe_drift = {"action": repr(a), "next_state": repr(ns), "matrix_row": [float(x) for x in om[ai, ni]],
+                                            "observation_dist": exp, "offered_in_next_state": [repr(x) for x in offered[ni]]}
+                        return
+            self.ctx.count("observation_tensor_probes_with_state_dependent_action_sets")
+        except Exception as e:                               # noqa: BLE001
+            self.ctx.count(f"observation_tensor_probe_raised_{type(e).__name__}")
 
     def warmup(self, planner, site):
         """Planner-reuse history: let the planner object plan the variant POMDP first (result discarded)."""
@@ -648,6 +695,66 @@ class Real:
             self.ctx.count(f"planner_reuse_histories[{site} after a variant with other {kind}]")
         except Exception:                                    # noqa: BLE001
             self.ctx.count("planner_reuse_warmups_that_raised")
+
+    @staticmethod
+    def clone(p):
+        """A new model object of the same class (the classes built here take no constructor arguments)."""
+        q = type(p)()
+        for attr in ("_state_list", "_action_list"):
+            if attr in p.__dict__:
+                setattr(q, attr, p.__dict__[attr])
+        return q
+
+    @staticmethod
+    def with_absorbing_flags(p, flag):
+        """The same POMDP whose is_absorbing() answers with 0/1 integers (as read from a flag table)."""
+        base = type(p)
+        conv = int if flag == "int" else np.int64
+
+        class _Flags(base):
+            def is_absorbing(self, s):
+                return conv(base.is_absorbing(self, s))
+        q = _Flags()
+        for attr in ("_state_list", "_action_list"):
+            if attr in p.__dict__:
+                setattr(q, attr, p.__dict__[attr])
+        return q
+
+    def short_lived_model(self):
+        """Call history with short-lived model objects: a model of the same shape but other dynamics (same initial
+        belief) is planned by a throw-away planner, dropped and garbage collected; the object returned is created
+        right afterwards (CPython then usually hands out the same address: counted).  It is the POMDP of the case."""
+        from msdm.algorithms.pointbasedvalueiteration import PointBasedValueIteration
+        case = self.case
+        mv = copy.deepcopy(case.get("m_build", case["m"]))
+        N = mv["N"]
+        mv["P"] = [[[row[(t + 1) % N] for t in range(N)] for row in sa] for sa in mv["P"]]
+        mv["R"] = [[[row[(t + 1) % N] for t in range(N)] for row in sa] for sa in mv["R"]]
+        try:
+            Bv = pb.build_pomdp(mv, rng=random.Random(digest([case["m"], case["rep"]])), **case["rep"])
+            pv = self.with_rare_transitions(Bv, mv["rare"]) if mv.get("rare") else Bv.pomdp
+            qa = self.clone(pv)
+            self.ctx.evaluations += 1
+            with warnings.catch_warnings():
+                warnings.simplefilter("ignore")
+                PointBasedValueIteration(min_belief_expansions=4, max_belief_expansions=6,
+                                         value_convergence_epsilon=0.01, horizon=3).plan_on(qa)
+            addr = id(qa)
+            del qa
+        except Exception:                                    # noqa: BLE001
+            addr = None
+            self.ctx.count("short_lived_predecessors_that_raised")
+        gc.collect()
+        # CPython hands the freed block to one of the next allocations of that size: create model objects until
+        # one gets it (the others are dropped afterwards); without a match the history is still a valid one
+        spare, q = [], None
+        for _ in range(400):
+            q = self.clone(self.p)
+            if addr is None or id(q) == addr:
+                break
+            spare.append(q)
+        self.ctx.count("short_lived_model_histories" + ("[address reused]" if id(q) == addr else "[other address]"))
+        return q
 
     @staticmethod
     def with_rare_transitions(B, rare):
@@ -763,7 +870,8 @@ class Real:
                                                    max_belief_expansions=cfg["max_belief_expansions"],
                                                    value_convergence_epsilon=float(eps), horizon=(None if H < 0 else H))
                 self.warmup(planner, "PointBasedValueIteration")
-                res = self.call("PointBasedValueIteration.plan_on", planner.plan_on, self.p)
+                target = self.short_lived_model() if (j == 0 and self.case.get("shortlived")) else self.p
+                res = self.call("PointBasedValueIteration.plan_on", planner.plan_on, target)
             except Exception as e:                           # noqa: BLE001
                 rec["error"] = err_of(e)
                 self.s2.append(rec)
@@ -987,6 +1095,7 @@ class Real:
         self.run_s2()
         self.run_qmdp()
         self.greedy_records()
+        self.probe_state_dependent_actions()
         return True
 
     def batch_record(self, tier):
@@ -1290,6 +1399,9 @@ class Judge:
         for rec in self.real.s2:
             self.judge_s2(rec)
         self.judge_qmdp()
+        if getattr(self.real, "probe_drift", None):
+            ctx.drift("ObservationTensor", {"case": self.idx, "what": "with state-dependent action sets observation_matrix[a, ns] is "
+                                            "not observation_dist(a, ns) for an action the next state does not offer", **self.real.probe_drift})
         self.judge_greedy()
         self.judge_expands()
         # non-triviality: a belief with >= 2 supported non-absorbing states at which two actions differ in
@@ -1436,6 +1548,9 @@ def run(ctx):
         "the coincidence clause is judged at members of a successor-closed belief set only (elsewhere a point-based "
         "value is legitimately lower); the look-ahead clause at beliefs whose successors are members",
         "float results are compared with exact rationals at 1e-9 relative",
+        "state-dependent action sets are outside the statement (no POMDP semantics: the agent cannot know what its hidden state "
+        "offers; PBVI scores an action that is not offered as 'reward 0, episode over' - an over-estimate with negative rewards - "
+        "and QMDP as -inf); only the observation tensor is probed on such a copy of the model (DRIFT)",
         "rare-transition family: the integer model leaves the 1e-9 entries out of the numbers and keeps them in the structure "
         "(successor beliefs, closure); values are compared with the extra perturbation bound 2 eps max|R| / (1-gamma)^2",
         "AlphaVectorPolicy reads Belief tuples positionally (ignores the states field): permuted / support-only Belief tuples are "
